@@ -265,17 +265,26 @@ func zzH_c12_y0() {
 //
 //verif:property C12
 //verif:expect-reach end
-//verif:bound key, IV, A, P content symbolic (IV bytes 0xff included); |IV| each of {12,1,8,16,17}, |A| in {0,1,17}, |P| each of {0,1,15,16,17,32,33} (quick) / |IV| plus {33,64}, every |P| <= 40 (thorough); odd |P| through Sm4GCM, even |P| through GCMEncrypt; block cipher and field multiplication abstract (arbitrary permutation / function, the same on both sides)
+//verif:bound key, IV, A, P content symbolic (IV bytes 0xff included); |IV| in {12,8,17}, |A| in {0,17}, |P| in {0,1,16,17,33} (quick) / |IV| in {12,1,8,16,17,33,64}, |A| in {0,1,17}, every |P| <= 40 (thorough); odd |P| through Sm4GCM, even |P| through GCMEncrypt; block cipher and field multiplication abstract (arbitrary permutation / function, the same on both sides)
 //verif:outside inputs of 2^32 blocks (counter wrap inside one message; the one-step counter function is H12-incr)
 //verif:stub github.com/tjfoc/gmsm/sm4.generateSubKeys zzStubSubKeys
 //verif:stub (*github.com/tjfoc/gmsm/sm4.Sm4Cipher).Encrypt zzStubEncrypt
 //verif:stub github.com/tjfoc/gmsm/sm4.multiplication zzStubMul
 //verif:unwind 4000
 func zzH_c12_seal() {
-	s := zzSel(zzGcmIVLenCount() * 3 * zzGcmLenCount(true))
-	n := zzGcmIVLen(s)
-	la := []int{0, 1, 17}[s.pick(3)]
-	lp := zzGcmLen(s, true)
+	var n, la, lp int
+	if vTier() == 0 {
+		// quick tier: a reduced product (about a third of the paths of the sweep below)
+		s := zzSel(3 * 2 * 5)
+		n = []int{12, 8, 17}[s.pick(3)]
+		la = []int{0, 17}[s.pick(2)]
+		lp = []int{0, 1, 16, 17, 33}[s.pick(5)]
+	} else {
+		s := zzSel(zzGcmIVLenCount() * 3 * zzGcmLenCount(true))
+		n = zzGcmIVLen(s)
+		la = []int{0, 1, 17}[s.pick(3)]
+		lp = zzGcmLen(s, true)
+	}
 	viaSm4GCM := lp%2 == 1 // odd |P| through Sm4GCM, even |P| through GCMEncrypt directly
 	key := vBytes("key", 16, 16)
 	iv := vBytes("iv", n, n)
